@@ -64,10 +64,12 @@ def context_property(func):
     # type: (t.Callable[..., R]) -> t.Callable[..., R]
     def inner(self, ctx, *args, **kwargs):
         # type: (T, t.Any, t.Any, t.Any) -> R
-        try:
-            cv = self._ctx_values  # type: ignore[attr-defined]
-        except AttributeError:
-            cv = self._ctx_values = {}  # type: ignore[attr-defined]
+        # a value belongs to the evaluation context (one request) it was
+        # computed in: it may rest on an evaluation that context cut short
+        owner, cv = getattr(self, '_ctx_values', (None, None))
+        if owner is not ctx:
+            cv = {}
+            self._ctx_values = (ctx, cv)  # type: ignore[attr-defined]
         else:
             try:
                 return cv[func.__name__]  # type: ignore[no-any-return]
